@@ -74,16 +74,16 @@ def stream_scenarios():
     return out
 
 
-def run_stream_scenario(sc, carry_on="direct"):
+def run_stream_scenario(sc, carry_on="direct", integ="generic"):
     quad = sc["stream"] == "QuadStream"
-    cfg = impl.default_cfg(integ="generic", sclass=("quad" if quad else "triple"), ltype=(2 if quad else 1), delimited=True, frame_size=10**6, preset=(16, 8, 0))
+    cfg = impl.default_cfg(integ=integ, sclass=("quad" if quad else "triple"), ltype=(2 if quad else 1), delimited=True, frame_size=10**6, preset=(16, 8, 0))
     stream = impl.make_stream(cfg)
     stream.enroll()
     frames, accepted, raised = [], [], []
     from pyjelly.integrations.generic import serialize as gser  # noqa: PLC0415
 
     for i, st in enumerate(sc["statements"]):
-        tt = [writer.to_impl_term(t, "generic") for t in st]
+        tt = [writer.to_impl_term(t, integ) for t in st]
         try:
             if carry_on == "enroll-again" and raised:
                 stream.enroll()                       # idempotent by contract; the integrations call it at the start of every stream_frames()
@@ -107,8 +107,8 @@ def run_stream_scenario(sc, carry_on="direct"):
     return out.getvalue(), accepted, raised
 
 
-def run_graph_scenario(sc):
-    cfg = impl.default_cfg(integ="generic", sclass="graph", ltype=2, delimited=True, frame_size=10**6, preset=(8, 2, 0))
+def run_graph_scenario(sc, integ="generic"):
+    cfg = impl.default_cfg(integ=integ, sclass="graph", ltype=2, delimited=True, frame_size=10**6, preset=(8, 2, 0))
     stream = impl.make_stream(cfg)
     stream.enroll()
     frames, accepted, raised = [], [], []
@@ -118,10 +118,10 @@ def run_graph_scenario(sc):
         def feed(triples=triples, g=g, pending=pending):
             for st in triples:
                 pending.append(tuple(st) + (g,))
-                yield [writer.to_impl_term(t, "generic") for t in st]
+                yield [writer.to_impl_term(t, integ) for t in st]
 
         try:
-            for fr in stream.graph(writer.to_impl_term(g, "generic"), feed()):
+            for fr in stream.graph(writer.to_impl_term(g, integ), feed()):
                 frames.append(fr)
             accepted.extend(pending)
         except Exception as ex:  # noqa: BLE001
@@ -205,10 +205,13 @@ def main(tier: str) -> int:
             traces.append({"id": len(cases) - 1, "rows": terms.jrows_of_frames(frames), "mode": "seq", "prefix": True,
                            "exp": [terms.jitem(terms.norm_item(it)) for it in res["accepted"]]})
     # TripleStream / QuadStream: enumerated slot x nesting x cause x (earlier slots repeated or fresh)
-    for sc, carry_on in [(sc, "direct") for sc in stream_scenarios()] + [(sc, how) for sc in stream_scenarios()[::7] for how in ("enroll-again", "stream_frames")]:
-        data, accepted, raised = run_stream_scenario(sc, carry_on)
-        key = {"stream": sc["stream"], "cause": sc["cause"], "slot": sc["slot"], "nested": sc["nested"] != "no", "carry_on": carry_on}
-        distinct.add((sc["stream"], sc["cause"], sc["slot"], sc["nested"], sc["before"]))
+    plain = [sc for sc in stream_scenarios() if sc["nested"] == "no"]         # rdflib has no quoted triples: the same scenarios through its term encoder
+    for sc, carry_on, integ in ([(sc, "direct", "generic") for sc in stream_scenarios()]
+                                + [(sc, how, "generic") for sc in stream_scenarios()[::7] for how in ("enroll-again", "stream_frames")]
+                                + [(sc, "direct", "rdflib") for sc in plain]):
+        data, accepted, raised = run_stream_scenario(sc, carry_on, integ)
+        key = {"stream": sc["stream"], "cause": sc["cause"], "slot": sc["slot"], "nested": sc["nested"] != "no", "carry_on": carry_on, "integ": integ}
+        distinct.add((sc["stream"], sc["cause"], sc["slot"], sc["nested"], sc["before"], integ))
         frames = wire.dec_stream(data, delimited=True)
         cases.append({"key": key, "model_bad": None, "res": {"rejected": raised, "accepted": accepted},
                       "replay": {"scenario": sc, "raised": raised, "accepted": accepted}})
@@ -216,10 +219,10 @@ def main(tier: str) -> int:
                        "exp": [terms.jitem(terms.norm_item(it)) for it in accepted]})
         n_rejecting += 1
     # GraphStream, graph by graph
-    for sc in graphstream_scenarios(tier):
-        data, accepted, raised = run_graph_scenario(sc)
-        key = {"stream": "GraphStream", "cause": sc["cause"], "slot": sc["slot"]}
-        distinct.add(("GraphStream", sc["cause"], sc["slot"], sc["position"]))
+    for sc, integ in [(sc, "generic") for sc in graphstream_scenarios(tier)] + [(sc, "rdflib") for sc in graphstream_scenarios(tier) if sc["cause"] != "nested"]:
+        data, accepted, raised = run_graph_scenario(sc, integ)
+        key = {"stream": "GraphStream", "cause": sc["cause"], "slot": sc["slot"], "integ": integ}
+        distinct.add(("GraphStream", sc["cause"], sc["slot"], sc["position"], integ))
         frames = wire.dec_stream(data, delimited=True)
         cases.append({"key": key, "model_bad": None, "res": {"rejected": raised, "accepted": accepted},
                       "replay": {"scenario": sc, "raised": raised, "accepted": accepted}})
